@@ -432,6 +432,23 @@ def r3_string_headers(ctx):
                 ok = not lr.left and not bad
                 ctx.check(ok, f"{'_loadop4_' + enc} <- {tag}: the loader consumes exactly the records the writer emitted (column, string, record marks, sentinel)",
                           ctx.src.func(OP4, "OP4._loadop4_" + enc), None if ok else {"not consumed": repr(lr.left)[:300], "misread": bad[:2]})
+                # the same round trip in every other regime of the row count (layout switch, header width): records consumed, row and column recovered
+                for other in L.writer(enc, layout, kind, cplx):
+                    if other is run or other.raised:
+                        continue
+                    lo = L.load(other)
+                    obad = lo.bads()
+                    first = None
+                    if other.r0 is not None:
+                        first = other.r0
+                    elif other.colhdr is not None:
+                        v = other.colhdr_vals()
+                        k = 2 if other.binary else 1
+                        first = v[k] - 1 if v and len(v) > k and is_rat(v[k]) else None
+                    ok = not lo.left and not obad and lo.put is not None and first is not None and same(lo.put[1][1], first) and same(lo.put[1][2], other.col)
+                    ctx.check(ok, f"{'_loadop4_' + enc} <- {tag}, {other.regime()}: the loader selects the reader of the layout that was written, consumes exactly "
+                                  "the records emitted and recovers first row and column", ctx.src.func(OP4, "OP4._loadop4_" + enc),
+                              None if ok else {"not consumed": repr(lo.left)[:200], "misread": obad[:2], "store": repr(lo.put[1][1:3])[:200] if lo.put else None})
 
 
 def depends_any(v, w):
@@ -520,9 +537,9 @@ def boundary_sites(ctx, L):
         for layout in LAYOUTS:
             for kind, cplx in SCEN:
                 for run in L.writer(enc, layout, kind, cplx):
-                    worlds.append(run.W)
+                    worlds.append((run.W, "writer"))
                     if not run.raised:
-                        worlds.append(L.load(run).W)
+                        worlds.append((L.load(run).W, "loader"))
     # the skipper, evaluated on its own parameters
     W = S.base_world(ctx, L.state, rows=(None, None), split_rows=False)
     W.opaque |= {"_skipop4_binary"}
@@ -530,17 +547,22 @@ def boundary_sites(ctx, L):
         S.run_method(W, "self._skipop4_ascii", {"perline": F.sym("perline"), "rows": F.sym("rows"), "cols": F.sym("cols"), "mtype": F.sym("mtype")})
     except S.NeedSplit:
         pass
-    worlds.append(W)
+    worlds.append((W, "skipper"))
     b4 = atom_id(S.B4)
-    for W in worlds:
+    for W, origin in worlds:
         for node, op, a, b, q in W.compares:
             if not (is_rat(a) and is_rat(b)):
                 continue
             d = a - b
             if not d.d.is_const() or b4 not in d.n.atoms():
                 continue
-            sites.setdefault(id(node), (node, op, a, b, q))
-    return list(sites.values())
+            # prefer an occurrence in which the row count enters with the sign opposite to the boundary (rows, not -rows)
+            cb = d.n.t.get(((b4, 1),), 0)
+            oth = [c for m, c in d.n.t.items() if m != () and m != ((b4, 1),)]
+            good = len(oth) == 1 and oth[0] * cb < 0
+            if id(node) not in sites or (good and not sites[id(node)][5]):
+                sites[id(node)] = (node, op, a, b, q, good, origin)
+    return [x[:5] + (x[6],) for x in sites.values()]
 
 
 def r4_ranges_and_dispatch(ctx):
@@ -552,7 +574,8 @@ def r4_ranges_and_dispatch(ctx):
     # every comparison against _rows4bigmat puts the boundary between 65535 and 65536 rows
     sites = boundary_sites(ctx, L)
     nsite = 0
-    for node, op, a, b, q in sorted(sites, key=lambda s: (s[4], getattr(s[0], "lineno", 0))):
+    origins = set()
+    for node, op, a, b, q, origin in sorted(sites, key=lambda s: (s[4], getattr(s[0], "lineno", 0))):
         d = a - b
         terms = [(m, c) for m, c in d.n.t.items() if m != ()]
         sc = 1 / d.d.const_value()
@@ -572,11 +595,14 @@ def r4_ranges_and_dispatch(ctx):
         lo, hi = truth(rows4 - 1), truth(rows4)
         ok = lo is not None and lo != hi
         nsite += 1
+        origins.add(origin)
         fname = q.split(".")[-1] if q else "?"
         ctx.check(ok, f"{fname}: layout switches to bigmat at rows >= {rows4} (writers, loaders and skipper must agree on the boundary)", node,
                   None if ok else f"`{ast.unparse(node)[:80]}`: a matrix with exactly {rows4} rows would be written in one layout and read in the other",
                   key=f"C04-R4|{q}|bigmat boundary")
-    ctx.check(nsite >= 4, f"bigmat boundary rule bound to {nsite} comparisons", OP4 + ":1", nsite, nontrivial=False)
+    ok = origins >= {"writer", "loader", "skipper"}
+    ctx.check(ok, "bigmat boundary rule bound to comparisons on the writer, the loader and the skipper side", OP4 + ":1",
+              None if ok else {"comparisons": nsite, "sides": sorted(origins)}, nontrivial=False)
     # nonbigmat writers emit the bigmat layout, and nothing else, from 65536 rows on
     for enc in ENCS:
         fn = wfn(ctx, enc, "nonbigmat")
